@@ -168,6 +168,7 @@ structure Basic (c : Cfg σ ρ) (s : State σ ρ) : Prop where
   aggCur : c.agg = true → s.cur = none
   doneJoin : s.reader = .done → s.tx = .dropped ∧ (s.rend = .done ∨ s.rend = .panicked)
   panicOut : s.reader = .panicked → s.outq = []
+  rdErrs : s.rdErrs = 0 ∨ (s.rdErrs = 1 ∧ s.reader ≠ .running)
 
 theorem basic_init (c : Cfg σ ρ) : Basic c (init c) := by
   constructor <;> simp [init]
@@ -180,7 +181,7 @@ theorem payload_some {c : Cfg σ ρ} {s : State σ ρ} {p : Bytes} (h : payload 
 
 theorem basic_step {c : Cfg σ ρ} (s : State σ ρ) (l : Label) (s' : State σ ρ)
     (hb : Basic c s) (h : next c s l = some s') : Basic c s' := by
-  obtain ⟨h1, h2, h3, h4, h5, h6, h7⟩ := hb
+  obtain ⟨h1, h2, h3, h4, h5, h6, h7, h8⟩ := hb
   cases l
   case write =>
     cases hp : payload c s with
@@ -563,9 +564,7 @@ theorem write_progress {c : Cfg σ ρ} {s : State σ ρ} {p : Bytes} (hp : paylo
       cases hs : s.sinkBroken <;> simp_all
     have hl : 0 < p.length := List.length_pos_iff.mpr h'.2
     refine ⟨.writeFail 0, rfl, ?_⟩
-    simp only [next, hp]
-    simp only [hl, implies_true, and_self, if_true]
-    split <;> rfl
+    simp [next, hp, hl]
 
 theorem rend_progress {c : Cfg σ ρ} {s : State σ ρ} (hb : Basic c s) (hr : s.rend = .running)
     (h : s.chan ≠ [] ∨ s.tx = .dropped ∨ s.cur ≠ none) : Enabled c s := by
@@ -724,8 +723,20 @@ theorem fed_run {c : Cfg σ ρ} : ∀ (ls : List Label) (s s' : State σ ρ),
       rw [fed_run ls s1 s' h, fed_step s l s1 hn]
       simp
 
-/-- with the input exhausted, finitely many thread steps end the run — whatever faults occurred -/
-theorem terminates {c : Cfg σ ρ} (hcap : 0 < c.cap) : ∀ (s : State σ ρ), Reachable c s → s.eof = true →
+theorem not_running_step {c : Cfg σ ρ} (s : State σ ρ) (l : Label) (s' : State σ ρ)
+    (hd : s.reader ≠ .running) (h : next c s l = some s') : s'.reader ≠ .running := by
+  cases l
+  all_goals
+    simp only [next, consume] at h
+    (repeat' split at h) <;>
+    first
+    | contradiction
+    | (cases h; simp_all)
+
+/-- with the input exhausted — or the reader already out of its loop (send failure, read error) —
+finitely many thread steps end the run, whatever faults occurred -/
+theorem terminates {c : Cfg σ ρ} (hcap : 0 < c.cap) : ∀ (s : State σ ρ), Reachable c s →
+    (s.eof = true ∨ s.reader ≠ .running) →
     ∃ ls s', (∀ l ∈ ls, l.internal = true) ∧ run c ls s = some s' ∧
       (s'.reader = .done ∨ s'.reader = .panicked) := by
   intro s
@@ -738,12 +749,18 @@ theorem terminates {c : Cfg σ ρ} (hcap : 0 < c.cap) : ∀ (s : State σ ρ), R
     · cases hn' : next c s l with
       | none => simp [hn'] at hn
       | some s1 =>
-        obtain ⟨ls, s', h1, h2, h3⟩ := ih s1 ⟨l, hl, hn'⟩ (hr.step hn') (eof_step s l s1 he hn')
+        have he1 : s1.eof = true ∨ s1.reader ≠ .running := by
+          rcases he with e | e
+          · exact Or.inl (eof_step s l s1 e hn')
+          · exact Or.inr (not_running_step s l s1 e hn')
+        obtain ⟨ls, s', h1, h2, h3⟩ := ih s1 ⟨l, hl, hn'⟩ (hr.step hn') he1
         refine ⟨l :: ls, s', ?_, by simp [run, hn', h2], h3⟩
         intro l' hl'
         rcases List.mem_cons.mp hl' with e | e
         · exact e ▸ hl
         · exact h1 l' e
-    · simp [he] at h
+    · rcases he with e | e
+      · simp [e] at h
+      · exact absurd h.1 e
 
 end Ag.Sched
